@@ -129,6 +129,20 @@ func (e *p2pEnv) rangeReply(beh string, o, a uint64, have int) peers.Reply {
 			hs[i] = &vhdr.Header{Chain: c.Chain, H: c.H, T: c.T, Prev: c.Prev, Salt: 5, PV: true}
 		}
 		return peers.Reply{Kind: "ok", Headers: hs}
+	case "forgedabove": // the first header of the answer is forged, but only for chunks that start above height `arg`
+		hs := get(o, a)
+		if len(hs) > 0 && o > uint64(arg) {
+			c := hs[0]
+			hs[0] = &vhdr.Header{Chain: c.Chain, H: c.H, T: c.T, Prev: c.Prev, Salt: 5, Forged: true}
+		}
+		return peers.Reply{Kind: "ok", Headers: hs}
+	case "invalidlast": // the LAST header of the answer fails Validate (and nothing else: same chain, same link, same fork)
+		hs := get(o, a)
+		if len(hs) > 0 {
+			c := hs[len(hs)-1]
+			hs[len(hs)-1] = &vhdr.Header{Chain: c.Chain, H: c.H, T: c.T, Prev: c.Prev, Salt: c.Salt, Bad: true}
+		}
+		return peers.Reply{Kind: "ok", Headers: hs}
 	case "panickyverify": // a header that decodes and validates, and on which the header type's own Verify panics
 		hs := get(o, a)
 		if len(hs) > 0 {
@@ -337,6 +351,15 @@ func runSession(prop, tier string, r *rng) {
 		for _, b := range byzantine {
 			e.sessionCase(prop, 5, 14, 4, []sessPeer{{have: 100, behs: []string{b}}}, 700)
 			e.sessionCase(prop, 5, 14, 3, []sessPeer{{have: 100, behs: []string{b, b}}, {have: 100}}, 700)
+		}
+		// a forged header that can only soft-fail (its chunk is not adjacent to `from`): only the forging peer holds those heights
+		fa := []string{"forgedabove:8", "forgedabove:8", "forgedabove:8", "forgedabove:8", "forgedabove:8", "forgedabove:8"}
+		e.sessionCase(prop, 5, 14, 3, []sessPeer{{have: 8}, {have: 100, behs: fa}}, 700)
+		e.sessionCase(prop, 5, 12, 3, []sessPeer{{have: 8}, {have: 100, behs: fa}, {have: 8}}, 700)
+		// a header that fails Validate and nothing else, at the end of a chunk; an honest peer is there as well
+		for _, chunk := range []uint64{3, 64} {
+			e.sessionCase(prop, 5, 14, chunk, []sessPeer{{have: 100, behs: []string{"invalidlast", "invalidlast", "invalidlast"}}}, 500)
+			e.sessionCase(prop, 5, 14, chunk, []sessPeer{{have: 100, behs: []string{"invalidlast", "invalidlast"}}, {have: 100}}, 700)
 		}
 		// the caller gives up (or its deadline passes) while valid answers are still on their way
 		for _, chunk := range []uint64{1, 2} {
